@@ -2,6 +2,7 @@ package main
 
 import (
 	"os/exec"
+	"regexp"
 	"bufio"
 	"encoding/json"
 	"fmt"
@@ -175,7 +176,7 @@ func runCheck(prop, tier, repo, verif, only string, updateBaseline bool) int {
 		return fail("load: " + err.Error())
 	}
 	w.specFn("")
-	evalAllFacts(w, filepath.Join(verif, "out", prop))
+	evalAllFacts(w, filepath.Join(verif, "out", prop), prop)
 
 	// select functions
 	var sel []*FuncContract
@@ -613,13 +614,16 @@ type factRes struct {
 	ms     int64
 }
 
-func evalAllFacts(w *World, outDir string) {
+func evalAllFacts(w *World, outDir string, prop string) {
 	w.FactResult = map[string]factRes{}
 	type item struct{ pkg, fn string }
 	byPkg := map[string][]string{}
 	for path, cf := range w.FileOfPkg {
 		for _, c := range cf.PkgInvs {
 			if c.Kind == "fact" {
+				if strings.HasPrefix(c.Label, "bounded_") && c.Property != "" && !containsStr(strings.Fields(strings.ReplaceAll(c.Property, ",", " ")), prop) {
+					continue // an exhaustive evaluation is never assumed anywhere: only run for the properties it decides
+				}
 				byPkg[path] = append(byPkg[path], c.SpecFn)
 			}
 		}
@@ -661,9 +665,12 @@ func evalAllFacts(w *World, outDir string) {
 			continue
 		}
 		var b strings.Builder
-		fmt.Fprintf(&b, "//go:build verif\n\npackage %s\n\nimport \"testing\"\n\nfunc TestZZVerifFacts(t *testing.T) {\n", name)
+		fmt.Fprintf(&b, "//go:build verif\n\npackage %s\n\nimport (\n\t\"fmt\"\n\t\"testing\"\n)\n\n", name)
+		// a fact that panics is a fact that does not hold (and must not take the other facts with it)
+		b.WriteString("func zzVerifFact(t *testing.T, name string, f func() bool) {\n\tspecWitness = \"\"\n\tok := false\n\tfunc() {\n\t\tdefer func() {\n\t\t\tif r := recover(); r != nil {\n\t\t\t\tspecWitness = fmt.Sprintf(\"panic: %v %s\", r, specWitness)\n\t\t\t}\n\t\t}()\n\t\tok = f()\n\t}()\n\tif ok {\n\t\tt.Logf(\"FACT-OK %s\", name)\n\t} else {\n\t\tt.Logf(\"FACT-WITNESS %s: %q\", name, specWitness)\n\t\tt.Errorf(\"FACT-FAILED %s\", name)\n\t}\n}\n\n")
+		b.WriteString("func TestZZVerifFacts(t *testing.T) {\n")
 		for _, fn := range byPkg[pp] {
-			fmt.Fprintf(&b, "\tif %s() {\n\t\tt.Logf(\"FACT-OK %s\")\n\t} else {\n\t\tt.Errorf(\"FACT-FAILED %s\")\n\t}\n", fn, fn, fn)
+			fmt.Fprintf(&b, "\tzzVerifFact(t, %q, %s)\n", fn, fn)
 		}
 		b.WriteString("}\n")
 		add(filepath.Join(dir, "zz_verif_facts_test.go"), []byte(b.String()))
@@ -691,7 +698,13 @@ func evalAllFacts(w *World, outDir string) {
 				case strings.Contains(string(out), "FACT-OK "+fn+"\n"):
 					w.FactResult[pp+"::"+fn] = factRes{"discharged", "", ms}
 				case strings.Contains(string(out), "FACT-FAILED "+fn+"\n"):
-					w.FactResult[pp+"::"+fn] = factRes{"failed", "the expression evaluates to false on the real code", ms}
+					why := "the expression evaluates to false on the real code"
+					if m := regexp.MustCompile(`FACT-WITNESS `+regexp.QuoteMeta(fn)+`: (".*")`).FindStringSubmatch(string(out)); m != nil {
+						if wtn, err := strconv.Unquote(m[1]); err == nil && wtn != "" {
+							why += "; failing input: " + wtn
+						}
+					}
+					w.FactResult[pp+"::"+fn] = factRes{"failed", why, ms}
 				default:
 					w.FactResult[pp+"::"+fn] = factRes{"unknown", "go test did not run the fact: " + lastLines(string(out), 8), ms}
 				}
